@@ -102,3 +102,14 @@ def nonperiodic_end_split(case, params):
     k = [Fr(x) for x in b['knots']]
     end = k[len(k) - b['order']]
     return any(Fr(x) == end for x in case.get('points', []))
+
+
+def open_close_controlpoints(case, params):
+    """split(seam) followed by make_periodic(same continuity >= 1) returns the right knot vector but control
+    points that differ from the original near the seam (the merging weights i/continuity are not the inverse
+    of the opening for non-uniform / repeated knots next to the seam)"""
+    o = _obj(case)
+    if o is None or case.get('op') != 'open_close' or 'control point' not in case.get('what', ''):
+        return False
+    b = o['bases'][case['direction']]
+    return b['periodic'] >= 1
